@@ -12,6 +12,7 @@ import (
 	"github.com/ThreeDotsLabs/watermill"
 	"github.com/ThreeDotsLabs/watermill/internal"
 	sync_internal "github.com/ThreeDotsLabs/watermill/pubsub/sync"
+	"github.com/ThreeDotsLabs/watermill/verifhook"
 )
 
 var (
@@ -319,8 +320,10 @@ func (r *Router) AddHandler(
 
 	select {
 	case r.handlerAdded <- struct{}{}:
+		verifhook.At("router.life.add.signalled", handlerName)
 	default:
 		// watchAllHandlersStopped is not always waiting for handlerAdded
+		verifhook.At("router.life.add.dropped", handlerName)
 	}
 
 	return &Handler{
@@ -365,9 +368,11 @@ func (r *Router) AddNoPublisherHandler(
 // When all handlers are stopped (for example: because of closed connection), Run() will be also stopped.
 func (r *Router) Run(ctx context.Context) (err error) {
 	if r.isRunning {
+		verifhook.At("router.life.run.already")
 		return errors.New("router is already running")
 	}
 	r.isRunning = true
+	verifhook.At("router.life.run.set")
 
 	ctx, cancel := context.WithCancel(ctx)
 	defer cancel()
@@ -385,9 +390,11 @@ func (r *Router) Run(ctx context.Context) (err error) {
 		return err
 	}
 
+	verifhook.At("router.life.run.running")
 	close(r.running)
 
 	<-r.closingInProgressCh
+	verifhook.At("router.life.run.closing_seen")
 	cancel()
 
 	r.logger.Info("Waiting for messages", watermill.LogFields{
@@ -395,6 +402,7 @@ func (r *Router) Run(ctx context.Context) (err error) {
 	})
 
 	<-r.closedCh
+	verifhook.At("router.life.run.closed_seen")
 
 	r.logger.Info("All messages processed", nil)
 
@@ -405,11 +413,14 @@ func (r *Router) Run(ctx context.Context) (err error) {
 // RunHandlers is idempotent, so can be called multiple times safely.
 func (r *Router) RunHandlers(ctx context.Context) error {
 	if !r.isRunning {
+		verifhook.At("router.life.rh.notrunning")
 		return errors.New("you can't call RunHandlers on non-running router")
 	}
 
 	r.handlersLock.Lock()
 	defer r.handlersLock.Unlock()
+	defer verifhook.At("router.life.rh.unlock")
+	verifhook.At("router.life.rh.locked")
 
 	r.logger.Info("Running router handlers", watermill.LogFields{"count": len(r.handlers)})
 
@@ -439,17 +450,22 @@ func (r *Router) RunHandlers(ctx context.Context) error {
 
 		messages, err := h.subscriber.Subscribe(ctx, h.subscribeTopic)
 		if err != nil {
+			verifhook.At("router.life.rh.subscribe_failed", name)
 			cancel()
 			return errors.Wrapf(err, "cannot subscribe topic %s", h.subscribeTopic)
 		}
 
+		verifhook.At("router.life.rh.subscribed", name)
 		h.messagesCh = messages
 		h.started = true
+		verifhook.At("router.life.rh.close_started", name)
 		close(h.startedCh)
+		verifhook.At("router.life.rh.started", name)
 
 		h.stopFn = cancel
 		h.stopped = make(chan struct{})
 
+		verifhook.At("router.life.rh.spawn", name)
 		go func() {
 			defer cancel()
 
@@ -459,15 +475,18 @@ func (r *Router) RunHandlers(ctx context.Context) error {
 
 			h.run(ctx, middlewares)
 
+			verifhook.At("router.life.loop.wg_done", name)
 			r.handlersWg.Done()
 			logger.Info("Subscriber stopped", nil)
 
 			r.handlersLock.Lock()
+			verifhook.At("router.life.loop.locked", name)
 			delete(r.handlers, name)
 			r.handlersLock.Unlock()
 
 			logger.Trace("Removed subscriber from r.handlers", nil)
 
+			verifhook.At("router.life.loop.close_stopped", name)
 			close(h.stopped)
 		}()
 	}
@@ -479,6 +498,7 @@ func (r *Router) RunHandlers(ctx context.Context) error {
 func (r *Router) watchAllHandlersStopped(ctx context.Context) {
 	r.handlersLock.RLock()
 	hasNoHandlersYet := len(r.handlers) == 0
+	verifhook.At("router.life.watch.read", fmt.Sprint(hasNoHandlersYet))
 	r.handlersLock.RUnlock()
 
 	go func() {
@@ -486,16 +506,20 @@ func (r *Router) watchAllHandlersStopped(ctx context.Context) {
 			// we can start router without any handlers,
 			// in that situation router would be closed immediately (even if they are no routers)
 			// let's wait for
+			verifhook.At("router.life.watch.select")
 			select {
 			case <-r.handlerAdded:
+				verifhook.At("router.life.watch.added")
 				// it should be some handler to track
 			case <-r.closedCh:
+				verifhook.At("router.life.watch.closed_seen")
 				// let's avoid goroutine leak
 				return
 			}
 		}
 
 		r.handlersWg.Wait()
+		verifhook.At("router.life.watch.waited")
 		if r.IsClosed() {
 			r.logger.Trace("watchAllHandlersStopped: already closed", nil)
 			// already closed
@@ -544,12 +568,15 @@ func (r *Router) IsRunning() bool {
 // Close gracefully closes the router with a timeout provided in the configuration.
 func (r *Router) Close() error {
 	r.closedLock.Lock()
+	verifhook.At("router.life.close.clocked")
 	defer r.closedLock.Unlock()
 
 	r.handlersLock.Lock()
+	verifhook.At("router.life.close.hlocked")
 	defer r.handlersLock.Unlock()
 
 	if r.closed {
+		verifhook.At("router.life.close.already")
 		r.logger.Debug("Already closed", nil)
 		return nil
 	}
@@ -560,10 +587,13 @@ func (r *Router) Close() error {
 	r.logger.Info("Closing router", nil)
 	defer r.logger.Info("Router closed", nil)
 
+	verifhook.At("router.life.close.closing")
 	close(r.closingInProgressCh)
 	defer close(r.closedCh)
+	defer verifhook.At("router.life.close.closed")
 
 	timedout := r.waitForHandlers()
+	verifhook.At("router.life.close.waited", fmt.Sprint(timedout))
 	if timedout {
 		return errors.New("router close timeout")
 	}
@@ -593,6 +623,7 @@ func (r *Router) waitForHandlers() bool {
 func (r *Router) IsClosed() bool {
 	r.closedLock.Lock()
 	defer r.closedLock.Unlock()
+	verifhook.At("router.life.isclosed", fmt.Sprint(r.closed))
 
 	return r.closed
 }
@@ -643,6 +674,7 @@ func (h *handler) run(ctx context.Context, middlewares []middleware) {
 	go h.handleClose(ctx)
 
 	for msg := range h.messagesCh {
+		verifhook.At("router.life.loop.recv", h.name)
 		h.runningHandlersWgLock.Lock()
 		h.runningHandlersWg.Add(1)
 		h.runningHandlersWgLock.Unlock()
@@ -650,8 +682,10 @@ func (h *handler) run(ctx context.Context, middlewares []middleware) {
 		go h.handleMessage(msg, middlewareHandler)
 	}
 
+	verifhook.At("router.life.loop.range_done", h.name)
 	if h.publisher != nil {
 		h.logger.Debug("Waiting for publisher to close", nil)
+		verifhook.At("router.life.loop.pub_close", h.name)
 		if err := h.publisher.Close(); err != nil {
 			h.logger.Error("Failed to close publisher", err, nil)
 		}
@@ -689,10 +723,12 @@ func (h *Handler) Started() chan struct{} {
 // Stop is asynchronous.
 // You can check if handler was stopped with Stopped() function.
 func (h *Handler) Stop() {
+	verifhook.At("router.life.stop.enter", h.handler.name, fmt.Sprint(h.handler.started))
 	if !h.handler.started {
 		panic("handler is not started")
 	}
 
+	verifhook.At("router.life.stop.call", h.handler.name)
 	h.handler.stopFn()
 }
 
@@ -764,6 +800,7 @@ func (h *handler) addHandlerContext(messages ...*Message) {
 func (h *handler) handleClose(ctx context.Context) {
 	select {
 	case <-h.routersCloseCh:
+		verifhook.At("router.life.hc.closing", h.name)
 		// for backward compatibility we are closing subscriber
 		h.logger.Debug("Waiting for subscriber to close", nil)
 		if err := h.subscriber.Close(); err != nil {
@@ -771,6 +808,7 @@ func (h *handler) handleClose(ctx context.Context) {
 		}
 		h.logger.Debug("Subscriber closed", nil)
 	case <-ctx.Done():
+		verifhook.At("router.life.hc.ctx", h.name)
 		// we are closing subscriber just when entire router is closed
 	}
 	h.stopFn()
